@@ -100,7 +100,15 @@ def main():
     mp = os.path.join(d, "meta.json")
     if os.path.exists(mp):
         old = json.load(open(mp))
+    # accumulate over runs: which checks ever detected it, and every check result with the patch applied
+    merged_checks = dict(old.get("checks_with_patch", {}))
+    merged_checks.update(meta["checks_with_patch"])
+    detected = sorted(set(old.get("detected_by", [])) | set(meta["detected_by"]))
     old.update(meta)
+    old["checks_with_patch"] = merged_checks
+    old["detected_by"] = detected
+    old["ran"] = ["git apply patch.diff in a scratch worktree: cargo test --offline --lib --tests (baseline with the patch), "
+                  "the demonstration with and without the patch", "git -C /repo apply patch.diff; bin/check <property> --tier quick; git -C /repo checkout -- ."]
     json.dump(old, open(mp, "w"), indent=1)
     print("filed", d, "detected_by", meta["detected_by"])
     return 0
